@@ -88,7 +88,9 @@ type qgen struct {
 
 	// shapes of recorded findings, only produced when switched on
 	nestedAlias  bool
-	varDep       bool
+	useVars      bool // operation variables may be used
+	incDepArgs   bool // includeDeprecated arguments may be written
+	varDep       bool // ... and may be given through variables (only with useVars)
 	rootTypename bool
 	deepRef      bool // full selections below type / ofType / interfaces / possibleTypes
 }
@@ -130,6 +132,9 @@ func (g *qgen) newVar(typ string, value any, provide bool) string {
 
 func (g *qgen) incDepArg() string {
 	t := g.t
+	if !g.incDepArgs {
+		return ""
+	}
 	k := rapid.IntRange(0, 99).Draw(t, "incdep")
 	switch {
 	case k < 30:
@@ -142,12 +147,12 @@ func (g *qgen) incDepArg() string {
 	if !g.varDep {
 		return "(includeDeprecated: true)"
 	}
-	switch rapid.IntRange(0, 3).Draw(t, "incdep-var") {
-	case 0:
+	switch rapid.IntRange(0, 4).Draw(t, "incdep-var") {
+	case 0, 1:
 		return "(includeDeprecated: " + g.newVar("Boolean!", true, true) + ")"
-	case 1:
-		return "(includeDeprecated: " + g.newVar("Boolean", rapid.Bool().Draw(t, "incdep-val"), true) + ")"
 	case 2:
+		return "(includeDeprecated: " + g.newVar("Boolean", rapid.Bool().Draw(t, "incdep-val"), true) + ")"
+	case 3:
 		return "(includeDeprecated: " + g.newVar("Boolean = true", nil, false) + ")"
 	}
 	return "(includeDeprecated: " + g.newVar("Boolean! = true", nil, false) + ")"
@@ -160,7 +165,7 @@ func (g *qgen) condDirective() string {
 	}
 	name := rapid.SampledFrom([]string{"skip", "include"}).Draw(t, "cond-name")
 	val := rapid.Bool().Draw(t, "cond-val")
-	if chance(t, 35, "cond-var") {
+	if g.useVars && chance(t, 35, "cond-var") {
 		return fmt.Sprintf(" @%s(if: %s)", name, g.newVar("Boolean!", val, true))
 	}
 	return fmt.Sprintf(" @%s(if: %v)", name, val)
@@ -217,7 +222,7 @@ func (g *qgen) sel(meta string, depth int) string {
 		default:
 			sub = g.sel(f.ret, depth+1)
 		}
-		if chance(t, 8, "dup-field") {
+		if chance(t, 4, "dup-field") {
 			// the same field twice: selections must be merged
 			second := g.leafSel(f.ret)
 			if isTypeRefField(f.name) {
@@ -274,11 +279,19 @@ func (g *qgen) leafSel(meta string) string {
 }
 
 func genQuery(t *rapid.T, typeNames []string, allowFindingShapes bool) queryCase {
-	g := &qgen{t: t, typeNames: typeNames, vars: map[string]any{}}
+	g := &qgen{t: t, typeNames: typeNames, vars: map[string]any{}, incDepArgs: true}
+	// operation variables and includeDeprecated arguments only meet in a class of their own
+	// (recorded finding: the argument is lost once the operation declares variables)
+	switch m := rapid.IntRange(0, 99).Draw(t, "var-mode"); {
+	case m < 60:
+	case m < 88 || !allowFindingShapes:
+		g.useVars, g.incDepArgs = true, false
+	default:
+		g.useVars, g.varDep = true, true
+	}
 	if allowFindingShapes {
 		g.nestedAlias = chance(t, 7, "class-nested-alias")
-		g.varDep = chance(t, 7, "class-var-includeDeprecated")
-		g.rootTypename = chance(t, 4, "class-root-typename")
+		g.rootTypename = chance(t, 6, "class-root-typename")
 		g.deepRef = chance(t, 6, "class-deep-type-reference")
 	}
 	nRoot := rapid.IntRange(1, 3).Draw(t, "n-root")
@@ -307,8 +320,11 @@ func genQuery(t *rapid.T, typeNames []string, allowFindingShapes bool) queryCase
 			roots = append(roots, key("__schema")+g.condDirective()+" { "+g.sel("__Schema", 0)+" }")
 		case k < 95:
 			n := rapid.SampledFrom(typeNames).Draw(t, "type-name")
-			v := g.newVar("String!", n, true)
-			roots = append(roots, key("__type")+"(name: "+v+") { "+g.sel("__Type", 1)+" }")
+			arg := jsonString(n)
+			if g.useVars {
+				arg = g.newVar("String!", n, true)
+			}
+			roots = append(roots, key("__type")+"(name: "+arg+") { "+g.sel("__Type", 1)+" }")
 		default:
 			// the static data source does not support aliases: plain, at most once
 			if !usedKeys[staticField] {
